@@ -205,6 +205,7 @@ structure Facts where
   updatesExisting : Tri
   saveRemovesStale : Tri
   destroyCleansIndex : Tri
+  validatesKeys : Tri   -- Save refuses a call that carries an empty key or a key containing '/' (driver extension only)
   namesVerbatim : Tri   -- core / index swamp names are Sanctuary(const).Realm(indexName).Swamp(domain | key), nothing transformed
   deriving Repr
 
